@@ -15,7 +15,7 @@ def points(rng, n, style):
     if style == 'random':
         return [[dy(rng, 6, -64, 64), dy(rng, 6, -64, 64)] for _ in range(n)]
     if style == 'clustered':
-        cx, cy = dy(rng, 4, -500, 500), dy(rng, 4, -500, 500)
+        cx, cy = dy(rng, 4, -200, 200), dy(rng, 4, -200, 200)
         return [[cx + dy(rng, 8, -2, 2), cy + dy(rng, 8, -2, 2)] for _ in range(n)]
     if style == 'lattice':
         return [[float(rng.randrange(-6, 7)), float(rng.randrange(-6, 7))] for _ in range(n)]
@@ -91,7 +91,7 @@ def weights(rng, n, mode, zeros=True):
     return one(), one()
 
 
-def problem(rng, geom, n=None, noise=None, style=None, wmode=None, outliers=0, zeros=True):
+def problem(rng, geom, n=None, noise=None, style=None, wmode=None, outliers=0, zeros=True, scale=None):
     """returns dict(xy, uv, wxy, wuv, truth, meta)"""
     if n is None:
         n = rng.choice([MINOBJ[geom], MINOBJ[geom] + 1, 3, 4, 5, 6, 8, 12, 20, 40, 60])
@@ -112,8 +112,14 @@ def problem(rng, geom, n=None, noise=None, style=None, wmode=None, outliers=0, z
         xy[k] = [xy[k][0] + rng.choice([-1, 1]) * dy(rng, 2, 20, 60), xy[k][1] + dy(rng, 2, -60, 60)]
     wmode = wmode or rng.choice(['none', 'xy', 'uv', 'both'])
     wxy, wuv = weights(rng, n, wmode, zeros)
+    # global unit change by an exact power of two (arcsec vs radians vs mas ...): nothing may depend on it
+    k = rng.choice([0, 0, 0, 0, -8, -14, -20, 8, 16]) if scale is None else scale
+    if k:
+        f = 2.0 ** k
+        xy = [[a * f, b_ * f] for a, b_ in xy]
+        uv = [[a * f, b_ * f] for a, b_ in uv]
     return {'geom': geom, 'xy': xy, 'uv': uv, 'wxy': wxy, 'wuv': wuv, 'truth': t, 'noise': noise,
-            'style': style, 'wmode': wmode, 'n': n}
+            'style': style, 'wmode': wmode, 'n': n, 'log2scale': k}
 
 
 def coq_pts(xy, uv):
